@@ -119,7 +119,9 @@ RunResult run_plan(const Plan &p, Totals *tot) {
     size_t n = p.programs.size();
     if (n < 1 || n > MAXT - 1) { rr.viol.set = true; rr.viol.cls = "internal"; rr.viol.msg = "bad thread count"; return rr; }
     simrt::fatal_context("prop=C20 i=%llu runseed=%llu site=setup", (unsigned long long)g_index, (unsigned long long)p.seed);
-    simrt::heap_begin_run(simrt::HEAP_IMMEDIATE, 0xA5, 0xDD);
+    // placement policy of the allocator (a function of the plan): in half of the runs a released block goes to the next request of the same
+    // size at once, whichever thread makes it - one thread's text then sits where another thread's text was a moment ago
+    simrt::heap_begin_run(((p.sched_seed >> 5) & 1) ? simrt::HEAP_SHARED_LIFO : simrt::HEAP_IMMEDIATE, 0xA5, 0xDD);
     // configuration knob: the process locale.  C.UTF-8 formats and parses numbers exactly like "C" (digests are unaffected), but code that
     // "pins" the locale around a libc call only does so when the current one is not "C".  (Every plan runs in its own forked child.)
     if (p.locale) { if (!std::setlocale(LC_ALL, "C.UTF-8")) std::setlocale(LC_ALL, "C.utf8"); }
